@@ -75,6 +75,10 @@ func c13Case(r *core.Run, idx int, rng *rand.Rand) {
 
 	l := conformantLogout(rng, d)
 	l.ID = "MKid" + randHex(rng, 6) + legalXMLString(rng, 2)
+	if rng.Intn(4) == 0 {
+		// identifiers as other products write them: a bare UUID, a number, a URN, non-ASCII letters, blanks inside
+		l.ID = []string{randHex(rng, 8) + "-" + randHex(rng, 4) + "-4" + randHex(rng, 3) + "-a" + randHex(rng, 3) + "-" + randHex(rng, 12), "4711" + randHex(rng, 2), "urn:uuid:" + randHex(rng, 12), "idé-" + randHex(rng, 4), "Идентификатор" + randHex(rng, 3), "id with blank " + randHex(rng, 3), "-" + randHex(rng, 5), "." + randHex(rng, 5)}[rng.Intn(8)]
+	}
 	now := time.Now()
 	// labels
 	decodable, registered := true, true
